@@ -74,6 +74,9 @@ StepChecks(tag, key, a, e) ==
        IN IF e.p # 0 THEN Chk(tag \o ".panic", key, FALSE)
           ELSE Chk(tag \o ".result", << key, e.res >>, e.res = Fields(t))
                + Chk(tag \o ".valid", << key, e.res >>, ValidRes(e.res))
+               \* chains also log the result's own Julian Day and the start as it reads after the call
+               + (IF Has(e, "jd") THEN Chk(tag \o ".result-julian-day", << key, e.jd >>, e.jd = << t.jdn, t.sod >>) ELSE 0)
+               + (IF Has(e, "st") THEN Chk(tag \o ".receiver-unchanged", << key, e.st >>, e.st = Fields(a)) ELSE 0)
 
 C04Edge ==
   /\ IsEv("C04Edge")
@@ -112,6 +115,16 @@ C07Civil ==
                   LET d == i - 2
                   IN Chk(IF e.o[i] = 1 THEN "C07.civil.rejected-existing-date" ELSE "C07.civil.accepted-nonexistent-date",
                          << e.y, e.m, d >>, (e.o[i] = 0) <=> ValidYmd(e.y, e.m, d))))
+  /\ UNCHANGED << cur, aux >>
+
+\* C07Trip: a civil day's lunar triple is accepted by the lunar constructor and leads back to that civil day
+C07Trip ==
+  /\ IsEv("C07Trip")
+  /\ LET e == Trace[l]
+     IN Consume(SumSeq(e.rows, LAMBDA r :
+                  IF Len(r) # 10 \/ r[10] # 0
+                    THEN Chk("C07.lunar.rejected-existing-date", << "trip", r >>, FALSE)
+                    ELSE Chk("C07.lunar.civil-day", << "trip", r >>, << r[7], r[8], r[9] >> = << r[1], r[2], r[3] >>)))
   /\ UNCHANGED << cur, aux >>
 
 C07Time ==
@@ -279,6 +292,10 @@ C19Year ==
             LET k == << x.c[1], x.c[2], x.c[3] >>
             IN Chk("C19.civil.ymd", << k, x.ymd >>, x.ymd = FmtYmd(x.c[1], x.c[2], x.c[3]) /\ x.str = x.ymd)
                + Chk("C19.civil.ymdhms", << k, x.hms >>, x.hms = FmtYmdHms(x.c[1], x.c[2], x.c[3], x.c[4], x.c[5], x.c[6]))
+               + (IF Has(x, "nh")
+                    THEN LET pd == YmdOf(JDN(x.c[1], x.c[2], x.c[3]) - 1)
+                         IN Chk("C19.civil.stepped-prints-canonically", << k, x.nh >>, x.nh = FmtYmdHms(pd[1], pd[2], pd[3], 0, x.c[5], x.c[6]))
+                    ELSE 0)
                + Chk("C19.civil.parse", k, /\ WellFormedYmd(x.ymd) /\ WellFormedYmdHms(x.hms)
                                            /\ ParseYmd(x.ymd) = k /\ ParseYmdHms(x.hms) = x.c)
                + (IF x.p # 0 THEN Chk("C19.lunar.panic", k, FALSE)
@@ -332,7 +349,13 @@ C20Year ==
             IN IF x.p # 0 THEN Chk("C20.panic", k, FALSE)
                ELSE Chk("C20.zodiac", << k, x.z >>, x.z = XingZuo[ZodiacOf(x.m, x.d) + 1] /\ x.z2 = x.z)
                     + Chk("C20.festivals", << k, x.f >>, SeqSet(x.f) = ExpectedFestivals(e.y, x.m, x.d) /\ Len(x.f) = Cardinality(SeqSet(x.f)))
-                    + Chk("C20.otherFestivals", << k, x.o >>, x.o = OtherOf(x.m, x.d)))
+                    + Chk("C20.otherFestivals", << k, x.o >>, x.o = OtherOf(x.m, x.d))
+                    + (IF Has(x, "ny")
+                         THEN Chk("C20.derived-object", << k, x.ny, x.nz, x.nf >>,
+                                  /\ ValidYmd(x.ny[1], x.ny[2], x.ny[3])
+                                  /\ x.nz = XingZuo[ZodiacOf(x.ny[2], x.ny[3]) + 1]
+                                  /\ SeqSet(x.nf) = ExpectedFestivals(x.ny[1], x.ny[2], x.ny[3]) /\ Len(x.nf) = Cardinality(SeqSet(x.nf)))
+                         ELSE 0))
           \* each weekday-rule festival is reported exactly once per year
           + SumSeq(SetToSeq(WeekFestivals), LAMBDA q :
               Chk("C20.once-per-year", << e.y, q >>,
@@ -343,7 +366,7 @@ C20Year ==
   /\ UNCHANGED << cur, aux >>
 
 TraceInit == KitInit /\ cur = Inst(JdnMin, 0) /\ aux = [ev |-> "none"]
-TraceNext == C04Day \/ C04Edge \/ C04Start \/ C04Step \/ C07Civil \/ C07Time \/ C07Lunar \/ C07Start \/ C07Step
+TraceNext == C04Day \/ C04Edge \/ C04Start \/ C04Step \/ C07Civil \/ C07Time \/ C07Trip \/ C07Lunar \/ C07Start \/ C07Step
              \/ C15Month \/ C15Units \/ C15Nav
              \/ C19Year \/ C20Rules \/ C20Year
 TraceSpec == TraceInit /\ [][TraceNext]_tvars
